@@ -163,8 +163,19 @@ func checkC07(c *hx.Ctx) {
 	docsN := 0
 	docsMax := c.N(20000, 400000)
 
+	// the concurrent mode is one long call: a pool of its own with a generous watchdog whose firing is "too slow to tell"
+	slowPool := hx.NewPool(c, "jcs", 2, 4*1024*1024, 15*time.Minute)
+	defer slowPool.Close()
 	call := func(mode byte, in []byte) (status string, out []byte, ok bool) {
-		reply, crash := pool.Call(append([]byte{mode}, in...))
+		pl := pool
+		if mode == 'C' {
+			pl = slowPool
+		}
+		reply, crash := pl.Call(append([]byte{mode}, in...))
+		if crash != nil && mode == 'C' && strings.HasPrefix(crash.CrashSig(), "watchdog") {
+			c.Inconclusive("the concurrent canonicalization workload did not finish within its 15-minute watchdog")
+			return "", nil, false
+		}
 		if crash != nil {
 			c.Violation("C07 canonicalizer crashed the process: "+crash.CrashSig(), map[string]interface{}{"input": string(in), "input_b64": base64.StdEncoding.EncodeToString(in), "mode": string(mode), "stderr": crash.Detail})
 			return "", nil, false
